@@ -448,6 +448,8 @@ class Gen:
                 continue
             if want == "S" and c.ret != "S":
                 continue
+            if want == "A" and c.ret != "A":
+                continue
             if want == "X" and not c.ret:
                 continue
             if env["nowait"] and not c.nowait:
@@ -558,6 +560,8 @@ class Gen:
                 return [("assign", self.arr_lval(env, KEY_NEST, depth=1), self.arr_expr(env) if self.chance(0.8) else ("nil",))]
             if env["Aw"]:
                 v = r.choice(env["Aw"])
+                if "threads" in self.f and self.callees(env, "A") and self.chance(0.5):
+                    return [("assign", ("var", v[1], v[2]), self.call_expr(env, 2, "A"))]
                 return [("assign", ("var", v[1], v[2]), self.arr_expr(env))]
         return [("print", self.chance(0.8), [self.printable(env, D) for _ in range(r.randint(0, 3))])]
 
@@ -596,6 +600,8 @@ class Gen:
                 e = self.int_expr(env, 2)
             elif env["ret"] == "S":
                 e = self.str_expr(env, 2)
+            elif env["ret"] == "A":
+                e = self.arr_expr(env)
             elif env["ret"] == "X" and self.chance(0.7):
                 e = self.any_expr(env, 2)
             return [("ite", self.bool_expr(env, 1), [("end", e)], [])]
@@ -608,7 +614,7 @@ class Gen:
         lv = ("var", "local", cv[2])
         old_mult = self.mult
         self.mult *= max(k, 1)
-        kind = r.choice(["for", "for", "while", "do"])
+        kind = r.choice(["for", "for", "while", "do", "while1", "do0"])
         sub = dict(env)
         sub["loop"] = "for" if kind == "for" else "other"
         sub["counter_done"] = True
@@ -631,6 +637,18 @@ class Gen:
             cond = cv if self.chance(0.4) else ("bin", "gt", cv, ("int", 0))
             body = [("decr", lv)] + self.stmts(sub, r.randint(1, 4), nest + 1)
             out.append(("while", cond, body))
+        elif kind == "while1":
+            # constant condition (folded to OP_BOOL_STORE_TRUE); leaves through `break`
+            out.append(("assign", lv, ("int", k + 1)))
+            cond = r.choice([("int", 1), ("int", 7), ("not", ("int", 0)), ("str", "x")])
+            body = [("decr", lv), ("ite", ("not", cv), [("brk",)], [])] + self.stmts(sub, r.randint(1, 3), nest + 1)
+            out.append(("while", cond, body))
+        elif kind == "do0":
+            # runs once; `continue` goes to the (false) condition, `break` leaves
+            sub["loop"] = "other"
+            sub["I"] = env["I"]
+            body = self.stmts(sub, r.randint(1, 3), nest + 1)
+            out.append(("dowhile", body, r.choice([("int", 0), ("nil",), ("str", ""), ("not", ("int", 5))])))
         else:
             out.append(("assign", lv, ("int", max(k, 1))))
             cond = ("bin", "gt", cv, ("int", 0)) if self.chance(0.7) else cv
@@ -729,7 +747,7 @@ class Gen:
         self.cost = 0
         locs_i = [("var", "local", self.fresh("i")) for _ in range(r.randint(1, 3))]
         locs_s = [("var", "local", self.fresh("s")) for _ in range(r.randint(0, 2))] if "strings" in self.f else []
-        locs_a = [("var", "local", self.fresh("a")) for _ in range(r.randint(0, 2))] if "arrays" in self.f else []
+        locs_a = [("var", "local", self.fresh("a")) for _ in range(r.randint(1 if th.ret == "A" else 0, 2))] if "arrays" in self.f else []
         locs_x = [("var", "local", self.fresh("x")) for _ in range(r.randint(0, 2))]
         consts = []
         pro = []
@@ -803,6 +821,8 @@ class Gen:
             end_e = self.int_expr(env, 2)
         elif th.ret == "S":
             end_e = self.str_expr(env, 2)
+        elif th.ret == "A":
+            end_e = self.arr_expr(env)
         epi = []
         if is_main:
             # make the final values of main's locals and of the group visible to the host
@@ -840,8 +860,12 @@ def gen_program(rng, max_stmts=80, max_nest=6, features=None):
         params.sort(key=lambda k: k == "X")      # optional (omittable) parameters last
         params = [(k, g.fresh("p")) for k in params]
         ret = rng.choice(["I", "I", "S", None]) if "strings" in g.f else rng.choice(["I", None])
+        if "arrays" in g.f and rng.random() < 0.15:
+            ret = "A"
         threads.append(Thread(g.fresh("t"), params, ret, nowait=rng.random() < 0.6))
     main = Thread("main", [("X", g.fresh("p")) for _ in range(rng.randint(0, 2))], rng.choice(["I", "S", None, None]), nowait=False)
+    if "arrays" in g.f and rng.random() < 0.1:
+        main.ret = "A"
     # bodies are generated callee-first so that costs are known; thread i may call threads j > i
     bodies = {}
     per = max(6, max_stmts // (nthreads + 1))
@@ -918,6 +942,15 @@ def has_free_continue(ss):
     return False
 
 
+KEYWORDS = {"end", "if", "else", "while", "for", "do", "game", "group", "level", "local", "parm", "owner", "self", "NULL", "NIL",
+            "try", "catch", "switch", "case", "break", "continue", "makearray", "makeArray", "endarray", "endArray", "size",
+            "ifequal", "ifstrequal", "ifnotequal", "ifstrnotequal", "ifless", "ifgreater", "iflessequal", "ifgreaterequal", "default"}
+
+
+def bare_ok(s):
+    return bool(s) and s not in KEYWORDS and (s[0].isalpha() or s[0] == "_") and all(c.isalnum() or c == "_" for c in s)
+
+
 class Layout:
     def __init__(self, rng, consts=None, plain=False):
         self.r = rng
@@ -936,6 +969,8 @@ class Layout:
         self.else_empty = 0.0 if plain else r.choice([0.0, 0.5])
         self.blank = 0.0 if plain else r.choice([0.0, 0.2])
         self.crlf = (not plain) and r.random() < 0.15
+        self.for_hoist = 0.0 if plain else r.choice([0.0, 0.3])
+        self.bare = 0.0 if plain else r.choice([0.0, 0.5])
         self.used = {}
 
     def note(self, k):
@@ -1065,6 +1100,10 @@ class Layout:
         return e[1] + " " + e[2] + "".join(" " + self.expr(a, PRIMARY) for a in e[3])
 
     def prim(self, e):
+        """a command parameter (`prim_expr`): a string that looks like an identifier may be written without quotes"""
+        if e[0] == "str" and self.p(self.bare) and bare_ok(e[1]):
+            self.note("bare-identifier")
+            return e[1]
         return self.expr(e, PRIMARY)
 
     # ---- statements
@@ -1164,9 +1203,15 @@ class Layout:
                 w = "while" + " " + self.cond(c) + self.before_block() + self.block(body + inc, depth)
                 return (self.sep() + self.indent * depth).join(parts + [w])
             self.note("for")
+            pre = ""
+            if init and self.p(self.for_hoist):
+                # `for (; c; inc)` with the initialisation in front (second production of the grammar)
+                self.note("for-init-hoisted")
+                pre = (self.sep() + self.indent * depth).join(self.stmt(x, depth) for x in init) + self.sep() + self.indent * depth
+                init = []
             head = "for" + ("" if self.p(self.tight) else " ") + "(" + "; ".join(self.stmt(x, depth) for x in init) + "; " + \
                 self.expr(c, 0) + "; " + "; ".join(self.stmt(x, depth) for x in inc) + ")"
-            return head + self.before_block() + self.block(body, depth)
+            return pre + head + self.before_block() + self.block(body, depth)
         if t == "dowhile":
             return "do" + self.before_block() + self.block(s[1], depth) + " while " + self.cond(s[2])
         if t == "brk":
